@@ -466,18 +466,52 @@ def trigOf (inp : Input) (c : CId) : List Name :=
     | none => none
 
 /-- ordering and once-only over a dependency table `deps` (the dynamic one): a `start t` is preceded by a good
-    report of every dependency; no second `start`, no second terminal report -/
-def obeyOK (deps : Name → List Name) : List Ev → Bool
+    report of every dependency; no second `start`, no second terminal report; a task is reported as executed only
+    after it started (`noAct`: the start of a task without actions is not observable) -/
+def obeyOK (deps : Name → List Name) (noAct : Name → Bool) : List Ev → Bool
   | [] => true
   | .start t :: pre =>
     (deps t).all (fun d => pre.any (fun e => e = .success d || e = .skipUtd d))
-      && !(pre.contains (.start t)) && !(pre.any (Ev.reports t)) && obeyOK deps pre
-  | e :: pre =>
-    (match e with
-     | .success t => !(pre.any (Ev.reports t)) && pre.contains (.start t)
-     | .failure t => !(pre.any (Ev.reports t)) && pre.contains (.start t)
-     | .unmet t => !(pre.any (Ev.reports t)) && !(pre.contains (.start t))
-     | .skipUtd t => !(pre.any (Ev.reports t)) && !(pre.contains (.start t))
-     | _ => true) && obeyOK deps pre
+      && !(pre.contains (.start t)) && !(pre.any (Ev.reports t)) && obeyOK deps noAct pre
+  | .success t :: pre => !(pre.any (Ev.reports t)) && (noAct t || pre.contains (.start t)) && obeyOK deps noAct pre
+  | .failure t :: pre => !(pre.any (Ev.reports t)) && (noAct t || pre.contains (.start t)) && obeyOK deps noAct pre
+  | .unmet t :: pre => !(pre.any (Ev.reports t)) && !(pre.contains (.start t)) && obeyOK deps noAct pre
+  | .skipUtd t :: pre => !(pre.any (Ev.reports t)) && !(pre.contains (.start t)) && obeyOK deps noAct pre
+  | .creator _ :: pre => obeyOK deps noAct pre
+
+/-- a dependency-respecting `start` never concerns an up-to-date task, and only up-to-date tasks are skipped -/
+def utdOK (utd : Name → Bool) : List Ev → Bool
+  | [] => true
+  | .start t :: pre => !utd t && utdOK utd pre
+  | .skipUtd t :: pre => utd t && utdOK utd pre
+  | _ :: pre => utdOK utd pre
+
+/-! ### decidable forms of the hypotheses of the C15 theorems (evaluated by the driver on every case) -/
+
+/-- `OnceWF.resolves` -/
+def resolvesB (inp : Input) : Bool :=
+  inp.tasks0.all fun p =>
+    match p.2.loader with
+    | none => true
+    | some l =>
+      match lookup0 inp.tasks0 (toLoad inp l p.1) with
+      | none => true
+      | some td => td.loader == none || td.loader == some l
+
+/-- `OnceWF.covers` -/
+def coversB (inp : Input) : Bool :=
+  inp.tasks0.all fun p => inp.tasks0.all fun q =>
+    match p.2.loader, q.2.loader with
+    | some l, some lq =>
+      inp.creatorOf l != inp.creatorOf lq || l == lq ||
+        (inp.make (inp.creatorOf l) (toLoad inp l p.1)).any (fun nt => nt.name == toLoad inp lq q.1)
+    | _, _ => true
+
+/-- `TrigWF` -/
+def trigB (inp : Input) : Bool :=
+  inp.tasks0.all fun p =>
+    match p.2.loader with
+    | none => true
+    | some l => (trigOf inp (inp.creatorOf l)).all (fun d => p.2.deps.contains d)
 
 end DoitModel.Delayed
